@@ -125,7 +125,9 @@ func (k Keeper) GetAllStakerListAssets(ctx sdk.Context) (ret []types.StakerListA
 		v := &types.StakerList{}
 		k.cdc.MustUnmarshal(iterator.Value(), v)
 		ret = append(ret, types.StakerListAssets{
-			AssetId:    string(iterator.Key()),
+			// the iterator runs over the module store itself, so its keys carry the list prefix; the
+			// importer (SetStakerList) puts the prefix in front of the asset id again
+			AssetId:    string(iterator.Key()[len(types.NativeTokenStakerListKeyPrefix):]),
 			StakerList: v,
 		})
 	}
